@@ -59,7 +59,7 @@ def run_check(pid, tier, replay=None):
     build_ok = True
     audit = {"theorems": [], "axioms": {}}
     if targets:
-        build_ok, out = C.lake_build(targets + ["TfPwaV"])
+        build_ok, out = C.lake_build(targets + ["TfPwaV"] + C.main_imports())
         if not build_ok:
             errs = [l for l in out.splitlines() if "error" in l.lower()][:20]
             res.broke("lake build " + " ".join(targets), errs)
@@ -169,7 +169,7 @@ def setup():
         except ModuleNotFoundError:
             continue
         targets += getattr(mod, "LEAN_TARGETS", [])
-    ok, out = C.lake_build(sorted(set(targets)) + ["TfPwaV"])
+    ok, out = C.lake_build(sorted(set(targets)) + ["TfPwaV"] + C.main_imports())
     if not ok:
         print(out[-5000:])
         return 2
